@@ -575,3 +575,117 @@ func sameValue(a, b ssa.Value) bool {
 	a, b = resolve1(a), resolve1(b)
 	return a == b
 }
+
+// ---- partial evaluation over the CFG ----
+
+// PathResult is one feasible path from entry to a Return under an environment that fixes some values to constants.
+type PathResult struct {
+	Conds  []Fact // branch decisions that could NOT be evaluated (residual conditions)
+	Ret    *ssa.Return
+	Blocks []*ssa.BasicBlock
+}
+
+// evalConst evaluates v to a constant under env (env gives constants for parameters / calls).
+func evalConst(v ssa.Value, env func(ssa.Value) (constant.Value, bool)) (constant.Value, bool) {
+	if env != nil {
+		if c, ok := env(v); ok {
+			return c, true
+		}
+	}
+	switch x := v.(type) {
+	case *ssa.Const:
+		if x.Value != nil {
+			return x.Value, true
+		}
+	case *ssa.ChangeType:
+		return evalConst(x.X, env)
+	case *ssa.Convert:
+		if c, ok := evalConst(x.X, env); ok && c.Kind() == constant.Int {
+			return c, true
+		}
+	case *ssa.UnOp:
+		if x.Op == token.NOT {
+			if c, ok := evalConst(x.X, env); ok && c.Kind() == constant.Bool {
+				return constant.MakeBool(!constant.BoolVal(c)), true
+			}
+		}
+	case *ssa.BinOp:
+		a, ok1 := evalConst(x.X, env)
+		b, ok2 := evalConst(x.Y, env)
+		if ok1 && ok2 {
+			switch x.Op {
+			case token.EQL, token.NEQ, token.LSS, token.LEQ, token.GTR, token.GEQ:
+				if a.Kind() == b.Kind() {
+					return constant.MakeBool(constant.Compare(a, x.Op, b)), true
+				}
+			case token.AND, token.OR, token.XOR, token.AND_NOT, token.ADD, token.SUB, token.MUL:
+				if a.Kind() == constant.Int && b.Kind() == constant.Int {
+					return constant.BinaryOp(a, x.Op, b), true
+				}
+			}
+		}
+	case *ssa.Phi:
+		// not path-sensitive here
+	}
+	return nil, false
+}
+
+// evalPaths enumerates entry-to-return paths of f, deciding branches whose condition evaluates under env and forking
+// on the others. Loops are cut (a block is visited at most once per path).
+func evalPaths(f *ssa.Function, env func(ssa.Value) (constant.Value, bool), limit int) []PathResult {
+	var out []PathResult
+	if len(f.Blocks) == 0 {
+		return nil
+	}
+	var walk func(b *ssa.BasicBlock, conds []Fact, blocks []*ssa.BasicBlock, seen map[*ssa.BasicBlock]bool)
+	walk = func(b *ssa.BasicBlock, conds []Fact, blocks []*ssa.BasicBlock, seen map[*ssa.BasicBlock]bool) {
+		if len(out) >= limit || seen[b] {
+			return
+		}
+		seen2 := map[*ssa.BasicBlock]bool{}
+		for k := range seen {
+			seen2[k] = true
+		}
+		seen2[b] = true
+		blocks = append(append([]*ssa.BasicBlock(nil), blocks...), b)
+		last := b.Instrs[len(b.Instrs)-1]
+		switch x := last.(type) {
+		case *ssa.Return:
+			out = append(out, PathResult{Conds: append([]Fact(nil), conds...), Ret: x, Blocks: blocks})
+		case *ssa.If:
+			// path-sensitive phi evaluation is not attempted; evaluate the condition directly
+			if c, ok := evalConst(x.Cond, env); ok && c.Kind() == constant.Bool {
+				if constant.BoolVal(c) {
+					walk(b.Succs[0], conds, blocks, seen2)
+				} else {
+					walk(b.Succs[1], conds, blocks, seen2)
+				}
+				return
+			}
+			walk(b.Succs[0], append(append([]Fact(nil), conds...), Fact{x.Cond, true, x}), blocks, seen2)
+			walk(b.Succs[1], append(append([]Fact(nil), conds...), Fact{x.Cond, false, x}), blocks, seen2)
+		case *ssa.Jump:
+			walk(b.Succs[0], conds, blocks, seen2)
+		default:
+			// panic etc.
+		}
+	}
+	walk(f.Blocks[0], nil, nil, map[*ssa.BasicBlock]bool{})
+	return out
+}
+
+// phiOnPath: the value of phi along a given block path.
+func phiOnPath(p *ssa.Phi, blocks []*ssa.BasicBlock) ssa.Value {
+	pb := p.Block()
+	for i, b := range blocks {
+		if b == pb && i > 0 {
+			prev := blocks[i-1]
+			for j, pr := range pb.Preds {
+				if pr == prev {
+					return p.Edges[j]
+				}
+			}
+		}
+	}
+	return nil
+}
